@@ -25,6 +25,7 @@ CONFIGS_QUICK = ["dir"]
 
 def run(ctx):
     CH.reader_terminal(ctx, "C20.R1")
+    CH.writer_never_resurrects(ctx, "C20.R1.writer")
     BR.once_taken(ctx, "C20.R2")
     BR.exactlen_table(ctx, "C20.R3.table")
     BR.exactlen_fused(ctx, "C20.R3")
